@@ -122,6 +122,12 @@ void harness(void)
             CHECK(env_tx[0].Data[0] == 0x60, "write accepted");
             CHECK(V1016(k).Time == nt && V1016(k).NodeId == nn, "written entry holds the new node and time");
             if (nt == 0) { CHECK(V1016(k).Tmr < 0, "time zero deactivates the written entry"); }
+            if ((nt > 0) && (nn >= 1) && (nn <= 127)) {
+                /* the entry now monitors a node it did not monitor before: nothing is known about that node yet */
+                CHECK(V1016(k).Tmr < 0, "monitoring of a newly configured node starts with its first heartbeat");
+                CHECK(CONmtLastHbState(&node.Nmt, nn) == CO_INVALID, "no state is known of a newly monitored node before its first heartbeat");
+                CHECK(CONmtGetHbEvents(&node.Nmt, nn) == 0, "no missed heartbeat is counted for a newly monitored node");
+            }
             for (i = 0; i < E; i++) {
                 if (i != k) {
                     CHECK(V1016(i).Time == (o[i].act ? o[i].time : 0) && V1016(i).NodeId == o[i].node && V1016(i).Tmr == otmr[i], "other entries untouched");
